@@ -10,13 +10,24 @@ from .engine import ROOT, REPO, BUILD
 
 
 def load_known():
-    p = os.path.join(ROOT, 'known_findings.jsonl')
+    """open findings only; format documented in known_findings.txt"""
+    p = os.path.join(ROOT, 'known_findings.txt')
     out = []
     if os.path.exists(p):
         for l in open(p):
             l = l.strip()
-            if l and not l.startswith('#'):
-                out.append(json.loads(l))
+            if not l.startswith('open:'):
+                continue
+            head, _, what = l[5:].partition('::')
+            d = {'status': 'open', 'what': what.strip(), 'witness_contains': []}
+            for tok in head.split():
+                if tok.startswith('property='):
+                    d['property'] = tok[9:]
+                elif tok.startswith('obligation='):
+                    d['obligation'] = tok[11:]
+                elif tok.startswith('witness='):
+                    d['witness_contains'].append(tok[8:].replace('_', ' '))
+            out.append(d)
     return out
 
 
